@@ -28,7 +28,7 @@ ASSUMPTIONS = [
     "'immediately' = the two status requests are among the frames the console receives within 50 ms (+ link latency) of the new connection",
     "poll deadlines within 0.1 s of a group status arrival or of a connection change are not judged",
 ]
-PROBES = ["c14.poll_deadline_in_outage", "c14.silence_after_outage", "c14.poll_write_error", "c14.fin", "c14.rst", "c14.blackhole", "c14.reboot", "c14.write_error", "c14.state_changed_while_down", "c14.unchanged_refresh",
+PROBES = ["c14.reconnection_dead_on_arrival", "c14.poll_deadline_in_outage", "c14.silence_after_outage", "c14.poll_write_error", "c14.fin", "c14.rst", "c14.blackhole", "c14.reboot", "c14.write_error", "c14.state_changed_while_down", "c14.unchanged_refresh",
           "c14.outage_beyond_heartbeat", "c14.second_outage", "c14.poll_after_outage", "c14.poll_fired", "c14.poll_repeated", "c14.poll_pushed_back"]
 
 
@@ -63,6 +63,13 @@ def generate(rng, index: int, tier: str) -> dict:
         fates = [{"kind": rng.choice(["refuse", "unreachable"]), "latency": 0.0} for _ in range(rng.choice([1, 3, 10]))] + [{"kind": "accept", "latency": 0.0}]
     else:
         fates = [{"kind": "timeout", "latency": 120.0}] * rng.choice([1, 3]) + [{"kind": "accept", "latency": 0.5}]
+    dead_on_arrival = kind in ("fin", "rst", "reboot", "write_error") and rng.random() < 0.25
+    if dead_on_arrival:
+        # a second fault during the recovery: the first connection that comes up is reset by the console at once (the
+        # refresh meets a dead transport); the one after it is healthy
+        fates = fates + rng.choice([[{"kind": "accept", "latency": rng.choice([0.0, 0.125])}],
+                                    [{"kind": "refuse", "latency": 0.0}, {"kind": "accept", "latency": 0.0}]])
+        tl.append({"at": t_o - G.EPS, "op": "net.rst_next_accept", "delay": rng.choice([0.0, G.EPS, knobs["latency"], knobs["latency"] + G.EPS])})
     tl.append({"at": t_o - G.EPS, "op": "net.fates", "fates": fates})
     if kind == "fin":
         tl.append({"at": t_o, "op": "net.fin"})
@@ -101,7 +108,7 @@ def generate(rng, index: int, tier: str) -> dict:
     tl.append({"at": t_end - 1.0, "op": "user.snapshot", "label": "final"})
     tl.sort(key=lambda s: s["at"])
     return {"gen": gen, "mode": "api", "installation": inst, "knobs": knobs, "timeline": tl, "end": t_end, "class": "reconnect",
-            "info": {"kind": kind, "t_o": t_o, "changed": changed, "down": down, "second": info_second}}
+            "info": {"kind": kind, "t_o": t_o, "changed": changed, "down": down, "second": info_second, "dead_on_arrival": dead_on_arrival}}
 
 
 def gen_poll(rng) -> dict:
@@ -169,16 +176,23 @@ def execute(sc: dict) -> dict:
             V.append(viol("C14.no_reconnect", {"kind": info.get("kind"), "links": len(links), "t_o": info.get("t_o")}, kind=info.get("kind")))
         return common.result(w, V, nontrivial=True, probes=probes)
     zreq = "group_status_request" if gen == 4 else "zone_status_request"
+    if info.get("dead_on_arrival"):
+        probes["c14.reconnection_dead_on_arrival"] = 1
+    prev_cut = None
     for l in links[1:]:
         rx = [e for e in w.console.rx if e["link"] == l.id and e["t"] <= l.t_accept + lat + 0.05]
         kinds = [e["reading"]["kind"] for e in rx]
         if l.server_closed or (l.client_closed and not rx and l is not links[-1]):
+            prev_cut = l
             continue  # a connection that was itself cut at once carries no obligation
+        # requests of a refresh that met a connection cut at once may still be queued (1 s lifetime) and come out in front
+        carry = 1 if prev_cut is not None and l.t_accept - prev_cut.t_accept <= 1.0 + 1e-9 else 0
+        prev_cut = None
         if "ac_status_request" not in kinds or zreq not in kinds:
             V.append(viol("C14.no_refresh", {"link": l.id, "established": l.t_accept, "first_frames": kinds}, missing="ac" if "ac_status_request" not in kinds else "zone"))
             break
         # AT4: the 300 s group poll may fire in the very instant of the reconnect (one extra request)
-        if kinds.count("ac_status_request") > 1 or kinds.count(zreq) > (2 if gen == 4 else 1):
+        if kinds.count("ac_status_request") > 1 + carry or kinds.count(zreq) > (2 if gen == 4 else 1) + carry:
             V.append(viol("C14.refresh_repeated", {"link": l.id, "first_frames": kinds}))
             break
     if info.get("second") and len(links) >= 3:
